@@ -55,6 +55,7 @@ func NetConn(ctx context.Context, c *Conn, msgType MessageType) net.Conn {
 		readMu:  newMu(c),
 		writeMu: newMu(c),
 	}
+	c.vNcNew(nc.readMu, nc.writeMu, &nc.readExpired, &nc.writeExpired)
 
 	nc.writeCtx, nc.writeCancel = context.WithCancel(ctx)
 	nc.readCtx, nc.readCancel = context.WithCancel(ctx)
@@ -64,7 +65,9 @@ func NetConn(ctx context.Context, c *Conn, msgType MessageType) net.Conn {
 		// which briefly holds writeMu, for an active write.
 		nc.writeTimerMu.Lock()
 		defer nc.writeTimerMu.Unlock()
+		nc.c.vEv("NcCbEnter", 1, 0, 0, 0)
 		if staleExpiry(nc.writeTimer, nc.writeDeadline) || atomic.LoadInt64(&nc.writeExpired) == 1 {
+			nc.c.vEv("NcCbStale", 1, 0, 0, 0)
 			return
 		}
 		if !nc.writeMu.tryLock() {
@@ -87,7 +90,9 @@ func NetConn(ctx context.Context, c *Conn, msgType MessageType) net.Conn {
 	nc.readTimer = time.AfterFunc(math.MaxInt64, func() {
 		nc.readTimerMu.Lock()
 		defer nc.readTimerMu.Unlock()
+		nc.c.vEv("NcCbEnter", 0, 0, 0, 0)
 		if staleExpiry(nc.readTimer, nc.readDeadline) || atomic.LoadInt64(&nc.readExpired) == 1 {
+			nc.c.vEv("NcCbStale", 0, 0, 0, 0)
 			return
 		}
 		if !nc.readMu.tryLock() {
@@ -154,10 +159,12 @@ func (nc *netConn) Write(p []byte) (int, error) {
 	defer nc.writeMu.unlock()
 
 	if atomic.LoadInt64(&nc.writeExpired) == 1 {
+		nc.c.vErr("NcCallEnd", context.DeadlineExceeded, 1)
 		return 0, fmt.Errorf("failed to write: %w", context.DeadlineExceeded)
 	}
 
 	err := nc.c.Write(nc.writeCtx, nc.msgType, p)
+	nc.c.vErr("NcCallEnd", err, 1)
 	if err != nil {
 		return 0, err
 	}
@@ -174,11 +181,13 @@ func (nc *netConn) Read(p []byte) (int, error) {
 	for {
 		n, err := nc.read(p)
 		if err != nil {
+			nc.c.vErr("NcCallEnd", err, 0)
 			return n, err
 		}
 		if n == 0 {
 			continue
 		}
+		nc.c.vErr("NcCallEnd", nil, 0)
 		return n, nil
 	}
 }
@@ -248,6 +257,7 @@ func deadlinePassed(mu *sync.Mutex, t *time.Timer, deadline *time.Time, expired 
 		t.Stop()
 		atomic.StoreInt64(expired, 1)
 	}
+	vNcEntry(expired)
 	return atomic.LoadInt64(expired) == 1
 }
 
@@ -273,12 +283,14 @@ func (nc *netConn) SetWriteDeadline(t time.Time) error {
 	atomic.StoreInt64(&nc.writeExpired, 0)
 	if t.IsZero() {
 		nc.writeTimer.Stop()
+		nc.c.vEv("NcSet", 1, 0, 0, 0)
 	} else {
 		dur := time.Until(t)
 		if dur <= 0 {
 			dur = 1
 		}
 		nc.writeTimer.Reset(dur)
+		nc.c.vEv("NcSet", 1, int64(dur), 0, 0)
 	}
 	return nil
 }
@@ -290,12 +302,14 @@ func (nc *netConn) SetReadDeadline(t time.Time) error {
 	atomic.StoreInt64(&nc.readExpired, 0)
 	if t.IsZero() {
 		nc.readTimer.Stop()
+		nc.c.vEv("NcSet", 0, 0, 0, 0)
 	} else {
 		dur := time.Until(t)
 		if dur <= 0 {
 			dur = 1
 		}
 		nc.readTimer.Reset(dur)
+		nc.c.vEv("NcSet", 0, int64(dur), 0, 0)
 	}
 	return nil
 }
